@@ -799,7 +799,7 @@ def run(rep, repo, tier):
         'or write outside those extents, n == 0 touches nothing, returned pointers lie inside the right object (or are '
         'NULL), length results (strlen, strnlen, strlcpy, strspn/strcspn bounds), memmove copy direction under overlap, '
         'memcpy word accesses only under the alignment guard, comparison results are differences of unsigned chars taken '
-        'first minus second, the case-insensitive comparisons fold with tolower on both sides. Copied contents are not decided.')
+        'first minus second, the case-insensitive comparisons fold with tolower on both sides.')
     rep.assumptions += ['sources and destinations of copy functions do not overlap except for memmove',
                         'tolower/toupper map 0 to 0 and non-zero to non-zero', 'lengths <= 2^30']
     names = ['memchr', 'memcmp', 'memcpy', 'memmove', 'memrchr', 'memset', 'strcasecmp', 'strcasestr', 'strcat',
@@ -853,3 +853,5 @@ def run(rep, repo, tier):
     rep.floor('R-MEMMOVE', 3)
     rep.floor('R-CURSORSTEP', 8)
     rep.floor('R-MEMCPY-ASCENDING', 1)
+    import c08_content
+    c08_content.run_ext(rep, repo, tier, mods=mods)
